@@ -25,6 +25,16 @@ deriving DecidableEq, Repr
 def Conn.begin (F : Facts) (c : Conn) (now : Int) : Conn :=
   if F.beginFixesWriteTime && c.writeTime.isNone then { c with writeTime := some now, txFixed := true } else c
 
+/-- `sqlite.VirtualTable.Begin` on a table that may refuse the transaction (`tableOK = false`: a
+    transaction already open, a storage error while reopening).  SQLite calls neither xCommit nor
+    xRollback after a failed xBegin, so whatever is pinned here stays. -/
+def Conn.beginOn (F : Facts) (c : Conn) (now : Int) (tableOK : Bool) : Conn × Bool :=
+  if F.beginAsksTableFirst then (if tableOK then (c.begin F now, true) else (c, false))
+  else (c.begin F now, tableOK)
+
+/-- `s3db_refresh`: allowed unless an open transaction has fixed the write time -/
+def Conn.refreshAllowed (F : Facts) (c : Conn) : Bool := !(F.refreshRefusedAfterWrite && c.txFixed)
+
 /-- `sqlite.VirtualTable.Commit` / `Rollback` (the attribute part) -/
 def Conn.endTx (F : Facts) (c : Conn) : Conn :=
   if F.endOfTxReleasesWriteTime && c.txFixed then { c with writeTime := none, txFixed := false } else c
